@@ -2,6 +2,7 @@ import GlyProofs.Smiles.Certify
 import GlyProofs.Smiles.TreeTheorem
 import GlyProofs.Mono.NumberingP
 import GlyProofs.Mono.NumberingF
+import GlyProofs.Mono.LinkAtom
 import GlyProofs.Front.WalkDen
 /-
   C01 — Glycosidic assembly yields exactly the molecule the linkages describe. (Property theorems only.)
@@ -119,6 +120,22 @@ open Gly.EnumC in
 theorem C01_numbering_table :
     numberingOk Gen.pyranoseTable ["API", "ERWINIOSE", "YER"] = true ∧ numberingOk Gen.furanoseTable ["API"] = true :=
   ⟨numbering_pyranose, numbering_furanose⟩
+
+open Gly.EnumC in
+/-- **The linking hetero atom** (Model of `Monomer.find_oxygen`, tied to monomer.py by correspondence on every call observed):
+    for the carbon a linkage names, the atom handed out is the carbon itself (no O/N there) or an O – else an N – bonded to it by a
+    single bond that is not exclusively in the main ring: never the ring oxygen, never an atom of another carbon. -/
+theorem C01_linking_atom (v : View) (pos o : Nat) (h : findOxygenAt v [pos] = .ok o) :
+    o = pos ∨ (v.bo pos o = 1 ∧ ((v.at o).z = 8 ∨ (v.at o).z = 7) ∧ (v.at o).ring ≠ 1) :=
+  findOxygenAt_spec v pos o h
+
+open Gly.EnumC in
+/-- … and when that atom is already substituted, `__check_root_id`'s walk through the substituent ends on the atom it was given, on
+    a terminal oxygen or on a nitrogen with at most two bonds – the only atoms `mark` may turn into a linkage marker. -/
+theorem C01_linking_atom_through_substituent (v : View) (fuel : Nat) (q seen : List Nat) (root : Nat) :
+    let r := checkRootGo v fuel q seen none root
+    r = root ∨ ((v.at r).z = 8 ∧ degSum v r = 1) ∨ ((v.at r).z = 7 ∧ degSum v r ≤ 2) :=
+  checkRootGo_spec v fuel q seen none root (by intro c hc; cases hc)
 
 /-- The tree the assembly consumes is the written one (C03). -/
 theorem C01_tree_is_written (w : WalkCfg) (s : Start) : walkStart w s = denStart w s := walkStart_eq_denStart w s
